@@ -98,3 +98,11 @@ Proof. unfold angT. pyrunA. reflexivity. Qed.
 
 Lemma float_ideal v t : Angle___float__ Rops (angT v t) = VFloat v.
 Proof. unfold angT. pyrunA. reflexivity. Qed.
+
+(* raw forms used as rewrite rules by the operator proofs *)
+Lemma init_float_raw r :
+  Angle___init__ Rops (VObj cAngle [VNone; VNone]) (VTuple [VFloat r]) (VDict []) = ang (red360 r).
+Proof. exact (init_float r). Qed.
+Lemma init_int_raw z :
+  Angle___init__ Rops (VObj cAngle [VNone; VNone]) (VTuple [VInt z]) (VDict []) = ang (red360 (IZR z)).
+Proof. exact (init_int z). Qed.
